@@ -899,6 +899,18 @@ def fill_slot_owner_obligations(ctx, rep, rule, mod):
         rep.fail(rule, f.qualname, ctx.where(f), "the update of the use-macro command was not found")
         return
     OUTER, INNER = 3, 8
+    # the open tags may be kept as records (a NamedTuple of the module) instead of plain triples
+    mk = tuple
+    for m_ in comp.methods.values():
+        for c_ in ast.walk(m_.node):
+            if isinstance(c_, ast.Call) and isinstance(c_.func, ast.Attribute) and c_.func.attr == "append" and norm(c_.func.value) == "self.tagStack" \
+                    and c_.args and isinstance(c_.args[0], ast.Call) and isinstance(c_.args[0].func, ast.Name):
+                R = mod.classes.get(c_.args[0].func.id)
+                if R is not None and len(R.annotations) == 3 and any("NamedTuple" in (b if isinstance(b, str) else "") for b in prog.external_bases(R)):
+                    import collections
+
+                    rec = collections.namedtuple(R.name, list(R.annotations))
+                    mk = lambda t, _rec=rec: _rec(*t)  # noqa: E731
     stacks = {"two nested use-macro elements, the slot inside the inner one": ([(("div", []), None, OUTER), (("p", []), None, None), (("span", []), None, INNER), (("b", []), None, None)], INNER),
               "one use-macro element": ([(("html", []), None, None), (("div", []), None, OUTER), (("b", []), None, None)], OUTER),
               "the slot directly on a child of the inner use-macro": ([(("div", []), None, OUTER), (("span", []), None, INNER)], INNER)}
@@ -907,7 +919,7 @@ def fill_slot_owner_obligations(ctx, rep, rule, mod):
     cmds[INNER] = (15, ("inner", {}, 21))
     problems, n = [], 0
     for label, (stack, want) in stacks.items():
-        facts = {"self.tagStack": Const(list(stack)), "self.commandList": Const(list(cmds)), "self.endTagSymbol": Const(9)}
+        facts = {"self.tagStack": Const([mk(t) for t in stack]), "self.commandList": Const(list(cmds)), "self.endTagSymbol": Const(9)}
 
         def cv(call, target, st):
             fn = call.func
